@@ -15,6 +15,16 @@ CLAIMS = {
   "note": "Does not decide the values comparison functions return on non-NULL arguments (C09/C13). Trusted: go/types, the interpreter in engine/absint, the expected strictness table in props/c11.go.",
   "technique": "finite-domain abstract interpretation (loop × reference-automaton product) + table extraction from composite literals",
  },
+ "C01": {
+  "text": "Structural necessary conditions of single-source SELECT semantics, each decided for all inputs: the Filter callback forwards a record iff the predicate is Boolean TRUE (5 abstract predicate classes); both ORDER BY comparators are the direction-aware lexicographic order with value tie-break (loop × reference-automaton product); Distinct and the two ORDER BY multiset containers keep (item, count) correctly for count-before ∈ {0,1,2,≥3} × {add, retract}, Distinct forwarding exactly on 0→1 and 1→0; every switch over NodeType/ExpressionType/TriggerType in package physical that asserts exhaustiveness lists every constant and touches only its own arm's payload.",
+  "note": "Does not decide the result multiset itself (quantifies over data and an external SQL oracle), nor that parser.go builds the right plan shape. Trusted: go/types, engine/absint, engine/unionfield.",
+  "technique": "finite-domain abstract interpretation + enum exhaustiveness / discriminant-payload agreement over go/types",
+ },
+ "C05": {
+  "text": "Every loop that applies a LIMIT (Limit.Run, produceOrderByItems, both printer loops) is abstractly interpreted under every scenario of counter-vs-limit tests: each emitted row is counted exactly once, nothing is emitted once the counter is at the limit, every emission is preceded by a test of the current counter (or the invariant counter<limit is established by a LIMIT-0 guard and re-established after every increment), and reaching the limit stops the iteration. The three sites that choose between Limit and OrderSensitiveTransform are compared as boolean functions by truth table over (ORDER BY, LIMIT, NoRetractions); the ORDER BY comparators, ascending traversal, DeleteMax guard and Limit's sentinel are checked structurally.",
+  "note": "Covers all n ≥ 0 and all multiplicities through the abstract scenarios; does not decide which rows are first beyond comparator orientation + Ascend. Trusted: go/types, engine/absint.",
+  "technique": "finite-domain abstract interpretation of counter/limit scenarios + truth-table equivalence of selection predicates",
+ },
 }
 
 NOT_APPLICABLE = {
